@@ -1673,7 +1673,7 @@ def directed(fn, ref_fn, module_tree, ref_tree, cls, ref_cls):
             total_f = sum(1 for n in ast.walk(f) if isinstance(n, (ast.stmt, ast.expr)))
             total_t = sum(1 for n in ast.walk(t) if isinstance(n, (ast.stmt, ast.expr)))
             miss_f, miss_t = total_f - score(f), total_t - score(t)
-            if miss_t < miss_f or (not structural and miss_t <= miss_f):
+            if miss_t < miss_f or (not structural and miss_t <= miss_f) or k == 0:  # k == 0: a helper the reference does not have is always inlined
                 f = t
     ast.fix_missing_locations(f)
     return f
